@@ -1175,6 +1175,13 @@ class Executor:
             if f'{v[1]}.{attr}' in ('np.inf', 'math.inf'):
                 raise Unsupported('infinity constant')
             return [(st, ('global', f'{v[1]}.{attr}'))]
+        if isinstance(v, tuple) and len(v) == 2 and v[0] == 'dtype':
+            if attr == 'kind':
+                k = {'int': 'i', 'float': 'f', 'bool': 'b'}.get(v[1])
+                if k is None:
+                    raise Unsupported('kind of an unknown dtype')
+                return [(st, k)]
+            raise Unsupported(f'dtype attribute {attr}')
         if isinstance(v, tuple) and len(v) == 2 and v[0] == 'class':
             if attr == '__name__':
                 return [(st, v[1])]
